@@ -135,8 +135,12 @@ macro_rules! entity_reactor
             fn reactor(self) -> SystemCommandCallback
             {
                 SystemCommandCallback::new(|mut data: EntityLocal<$name>, mut r: AllReaders, mut n: Local<u32>| {
+                    // the read-only accessors must agree with the mutable one
+                    let ro = { let (e, d) = data.get(); (e, d.0, d.1) };
+                    let ent = data.entity();
                     let (e, d) = data.get_mut();
-                    let snapshot = (e, d.0, d.1);
+                    let mut snapshot = (e, d.0, d.1);
+                    if ro != snapshot || ent != e { snapshot.1 = u32::MAX; }
                     d.1 += 1;
                     log_run($idx, &mut r, &mut n, Some(snapshot));
                 })
@@ -188,28 +192,29 @@ fn op_sys(
     e2: EntityReactor<E2>,
     e3: EntityReactor<E3>,
     mut rm: ReactiveMut<CA>,
-)
+) -> Option<bool>
 {
+    let mut ret: Option<bool> = None;
     match op
     {
-        WOp::WAdd(0, keys) => { wd0.add(&mut c, resolve(&keys)); }
-        WOp::WAdd(_, keys) => { wd1.add(&mut c, resolve(&keys)); }
-        WOp::WRemove(0, keys) => { wd0.remove(&mut c, resolve(&keys)); }
-        WOp::WRemove(_, keys) => { wd1.remove(&mut c, resolve(&keys)); }
-        WOp::WRun(0) => { wd0.run(&mut c); }
-        WOp::WRun(1) => { wd1.run(&mut c); }
-        WOp::WRun(_) => { w3.run(&mut c); }
-        WOp::W3AddBroadcast => { w3.add(&mut c, broadcast::<Pay<0>>()); }
-        WOp::W3Remove(true) => { w3.remove(&mut c, resource_mutation::<RA>()); }
-        WOp::W3Remove(false) => { w3.remove(&mut c, broadcast::<Pay<0>>()); }
+        WOp::WAdd(0, keys) => { ret = Some(wd0.add(&mut c, resolve(&keys))); }
+        WOp::WAdd(_, keys) => { ret = Some(wd1.add(&mut c, resolve(&keys))); }
+        WOp::WRemove(0, keys) => { ret = Some(wd0.remove(&mut c, resolve(&keys))); }
+        WOp::WRemove(_, keys) => { ret = Some(wd1.remove(&mut c, resolve(&keys))); }
+        WOp::WRun(0) => { ret = Some(wd0.run(&mut c)); }
+        WOp::WRun(1) => { ret = Some(wd1.run(&mut c)); }
+        WOp::WRun(_) => { ret = Some(w3.run(&mut c)); }
+        WOp::W3AddBroadcast => { ret = Some(w3.add(&mut c, broadcast::<Pay<0>>())); }
+        WOp::W3Remove(true) => { ret = Some(w3.remove(&mut c, resource_mutation::<RA>())); }
+        WOp::W3Remove(false) => { ret = Some(w3.remove(&mut c, broadcast::<Pay<0>>())); }
         WOp::EAdd(k, e, tag) =>
         {
             let ent = pool_entity(e);
             match k % 3
             {
-                0 => { e1.add(&mut c, ent, (tag, 0)); }
-                1 => { e2.add(&mut c, ent, (tag, 0)); }
-                _ => { e3.add(&mut c, ent, (tag, 0)); }
+                0 => { ret = Some(e1.add(&mut c, ent, (tag, 0))); }
+                1 => { ret = Some(e2.add(&mut c, ent, (tag, 0))); }
+                _ => { ret = Some(e3.add(&mut c, ent, (tag, 0))); }
             }
         }
         WOp::ERemove(k, e, mask) =>
@@ -218,9 +223,9 @@ fn op_sys(
             let b = resolve(&keys);
             match k % 3
             {
-                0 => { e1.remove(&mut c, b); }
-                1 => { e2.remove(&mut c, b); }
-                _ => { e3.remove(&mut c, b); }
+                0 => { ret = Some(e1.remove(&mut c, b)); }
+                1 => { ret = Some(e2.remove(&mut c, b)); }
+                _ => { ret = Some(e3.remove(&mut c, b)); }
             }
         }
         WOp::ERemoveMany(k, list) =>
@@ -233,9 +238,9 @@ fn op_sys(
             let b = resolve(&keys);
             match k % 3
             {
-                0 => { e1.remove(&mut c, b); }
-                1 => { e2.remove(&mut c, b); }
-                _ => { e3.remove(&mut c, b); }
+                0 => { ret = Some(e1.remove(&mut c, b)); }
+                1 => { ret = Some(e2.remove(&mut c, b)); }
+                _ => { ret = Some(e3.remove(&mut c, b)); }
             }
         }
         WOp::Mutate(e) => { if let Ok(v) = rm.get_mut(&mut c, pool_entity(e)) { v.0 = v.0.wrapping_add(1); } }
@@ -246,6 +251,7 @@ fn op_sys(
         WOp::ResMutate => c.react().trigger_resource_mutation::<RA>(),
         WOp::Broadcast => c.react().broadcast(Pay::<0>::new(payload)),
     }
+    ret
 }
 
 //-------------------------------------------------------------------------------------------------------------------
@@ -355,6 +361,8 @@ fn run_inner(case: &WCase, out: &mut WOutcome)
         let payload = ST.with(|s| { let mut s = s.borrow_mut(); s.next_payload += 1; s.next_payload });
         let mut op = step.op.clone();
         let mut skip = false;
+        // add / remove / run report success (`true`) unless the reactor type is missing or the entity to add is gone
+        let mut want_ret: Option<bool> = Some(true);
         // normalise + model
         let expected_before = m.expected.len();
         match &mut op
@@ -395,7 +403,8 @@ fn run_inner(case: &WCase, out: &mut WOutcome)
                 *e = e8(*e);
                 let e = *e;
                 // re-adding is only generated after full removal (duplicate triggers are unspecified)
-                if !m.alive[e as usize] || !m.er[k][e as usize].0.is_empty() { skip = true; }
+                if !m.alive[e as usize] { want_ret = Some(false); m.hit("C16:add_on_dead_entity"); }
+                else if !m.er[k][e as usize].0.is_empty() { skip = true; }
                 else { m.er[k][e as usize] = (e_keys(k as u8, e), *tag); m.hit("C16:entity_added"); }
             }
             WOp::ERemove(k, e, mask) =>
@@ -510,7 +519,14 @@ fn run_inner(case: &WCase, out: &mut WOutcome)
         }
         // an in-line trigger that runs at least one reactor enters the runner, which polls first
         if !matches!(op, WOp::RemoveComp(_) | WOp::Despawn(_)) && m.expected.len() > expected_before { m.unpolled_scoped.clear(); }
-        if !skip { world.syscall((op.clone(), payload), op_sys); }
+        if !skip
+        {
+            let ret = world.syscall((op.clone(), payload), op_sys);
+            if let (Some(got), Some(want)) = (ret, want_ret)
+            {
+                if got != want { out.violations.push(format!("step {si} {:?}: the call returned {got}, expected {want}", step.op)); }
+            }
+        }
 
         let do_settle = step.settle || !m.pending || si + 1 == case.steps.len();
         if do_settle
